@@ -4,7 +4,7 @@
 set -u
 V=$(cd "$(dirname "$0")/.." && pwd)
 cd $V
-PROPS=$(${GPC:-$V/bin/goparcheck} -list | tr ' ' '\n' | grep -v T01 | tr '\n' ' ')
+PROPS=${ONLYPROPS:-$(${GPC:-$V/bin/goparcheck} -list | tr ' ' '\n' | grep -v T01 | tr '\n' ' ')}
 one() {
   patch=$1; name=$2; target=$3
   S=$(mktemp -d /tmp/gpmx.XXXXXX)
